@@ -3618,6 +3618,141 @@ Proof.
     { intros q l' r' Hq Hnq. apply (HUb q l' r' Hq). intros H. apply Hnq. right. exact H. }
     intros nd j Hj Hl Hnd. apply (Hunb nd j Hj Hl). intros H. apply Hnd. right. exact H.
 Qed.
+
+Fixpoint children_first (P : list node) (nodes : list (node * (node * node))) : Prop :=
+  match nodes with
+  | [] => True
+  | (p, (l, r)) :: rest => Vof P l /\ Vof P r /\ children_first (p :: P) rest
+  end.
+Lemma RInv_fold K0 nodes : forall P s, RInv K0 P s -> NoDup (map fst nodes) ->
+  (forall e, In e nodes -> nget (fst e) (children s) = Some (snd e)) ->
+  (forall e, In e nodes -> ~ In (fst e) P /\ In (fst e) K0) ->
+  children_first P nodes ->
+  RInv K0 (rev (map fst nodes) ++ P) (fold_left loop_body nodes s).
+Proof.
+  induction nodes as [|[p [l r]] nodes IH]; intros P s HR ND He Hp Hcf; cbn [fold_left map rev]; [exact HR|].
+  cbn [map fst] in ND. inversion ND as [|? ? Hnp ND']. subst.
+  destruct Hcf as (Vl & Vr & Hcf').
+  destruct (Hp _ (or_introl eq_refl)) as [HnP HpK]. cbn [fst] in HnP, HpK.
+  destruct (RInv_step K0 P s p l r HR (He _ (or_introl eq_refl)) HnP Vl Vr HpK) as [HR' Hch].
+  rewrite <- app_assoc. cbn [app]. apply IH; [exact HR'|exact ND'| | |exact Hcf'].
+  - intros e Hin. rewrite Hch; [apply He; right; exact Hin|]. intros E. apply Hnp. rewrite <- E. apply in_map, Hin.
+  - intros e Hin. destruct (Hp e (or_intror Hin)) as [A B]. split; [|exact B].
+    intros [E|H]; [apply Hnp; cbn [fst] in E |- *; rewrite E; apply in_map, Hin|contradiction].
+Qed.
 End RestoreLoop.
+
+Lemma find_removed ind : forall L, In ind (removed L) -> NoDup (removed L) ->
+  exists si, find (fun x => Nat.eqb (sl_ix x) ind) L = Some si /\ sl_ix si = ind /\
+             Permutation L (si :: filter (fun x => negb (Nat.eqb (sl_ix x) ind)) L).
+Proof.
+  unfold removed. induction L as [|x L IH]; cbn [map find filter]; intros Hin ND; [contradiction|].
+  inversion ND as [|? ? Hx ND']; subst. destruct (Nat.eqb_spec (sl_ix x) ind) as [E|E]; cbn [negb].
+  - exists x. split; [reflexivity|]. split; [exact E|].
+    assert (Hf : filter (fun y => negb (Nat.eqb (sl_ix y) ind)) L = L).
+    { clear -Hx E. induction L as [|y L IH]; cbn; [reflexivity|].
+      destruct (Nat.eqb_spec (sl_ix y) ind) as [Ey|Ey]; cbn.
+      - exfalso. apply Hx. left. congruence.
+      - f_equal. apply IH. intros H. apply Hx. right. exact H. }
+    rewrite Hf. reflexivity.
+  - destruct Hin as [H|H]; [congruence|]. destruct (IH H ND') as (si & F & Es & HP).
+    exists si. split; [exact F|]. split; [exact Es|]. rewrite HP at 1. apply perm_swap.
+Qed.
+Lemma removed_filter ind L j : In j (removed (filter (fun x => negb (Nat.eqb (sl_ix x) ind)) L)) <-> j <> ind /\ In j (removed L).
+Proof.
+  unfold removed. rewrite !in_map_iff. split.
+  - intros (x & <- & Hx). apply filter_In in Hx. destruct Hx as [Hx Hn]. apply negb_true_iff, Nat.eqb_neq in Hn. split; [exact Hn|exists x; auto].
+  - intros (Hn & x & <- & Hx). exists x. split; [reflexivity|]. apply filter_In. split; [exact Hx|]. apply negb_true_iff, Nat.eqb_neq, Hn.
+Qed.
+
+Definition rs_pre (ind : ix) (s : tstate) : Prop :=
+  In ind (removed (sliced s)) /\ NoDup (removed (sliced s)) /\
+  trk_flops s = true /\ trk_write s = true /\ trk_size s = true /\
+  (0 < zget ind (szd n))%Z /\ incl (output n) (concat (inputs n)) /\
+  (exists nodes, traverse n s = Some nodes /\ Permutation (map fst nodes) (nkeys (children s)) /\ children_first [] nodes) /\
+  (forall p l r, nget p (children s) = Some (l, r) -> nunion l r = p) /\
+  (forall q, In q (nkeys (children s)) -> nget q (info s) <> None) /\
+  (forall nd i, nget nd (info s) = Some i -> length nd <> 1 -> In nd (nkeys (children s)) /\ full2 i).
+
+Theorem restore_ind_inv ind s : InvC s -> rs_pre ind s -> InvC (restore_ind n ind s).
+Proof.
+  intros [HS HT] (Hin & NDr & Tf & Tw & Ts & Hpos & Hinc & (nodes & Htr & HPn & Hcf) & HU & HKi & Hfull).
+  unfold restore_ind.
+  destruct (find_removed ind (sliced s) Hin NDr) as (si & Ef & Esi & HPsl). rewrite Ef.
+  set (sl := sliced s) in *. set (sl' := filter (fun x => negb (Nat.eqb (sl_ix x) ind)) sl) in *.
+  assert (Hrem : forall j, In j (removed sl) <-> j = ind \/ In j (removed sl')).
+  { intros j. unfold sl'. rewrite removed_filter. destruct (Nat.eq_dec j ind) as [->|Hn]; tauto. }
+  assert (Hfresh : ~ In ind (removed sl')) by (unfold sl'; rewrite removed_filter; tauto).
+  set (s1 := set_sliced sl' s).
+  rewrite (contract_stats_id s1) by assumption.
+  set (s3 := set_mult (mult s1 / sl_size n si)%Z s1).
+  assert (Em3 : mult s3 = multiplicity n sl').
+  { unfold s3, s1. cbn [set_mult set_sliced mult]. destruct HS as (_&_&_&M). rewrite M. fold sl.
+    rewrite (multiplicity_perm _ _ HPsl). unfold multiplicity at 1. cbn [map]. rewrite zprod_cons.
+    fold (multiplicity n sl'). unfold sl_size. rewrite Esi.
+    destruct (sl_proj si); [rewrite Z.mul_1_l; apply Z.div_1_r|rewrite Z.mul_comm; apply Z.div_mul; lia]. }
+  change (fold_left _ (seq 0 N) s3) with (fold_left (leafstep ind) (seq 0 N) s3).
+  pose proof (leaf_fold_same ind (seq 0 N) s3 (seq_NoDup N 0)) as (A1&A2&A3&A4&A5&A6&A7&A8&A9&A10&A11&A12&A13).
+  set (s4 := fold_left (leafstep ind) (seq 0 N) s3) in *.
+  assert (Etr : traverse n s4 = traverse n s) by (unfold traverse; rewrite A1; reflexivity).
+  rewrite Etr, Htr.
+  set (K0 := nkeys (children s)) in *.
+  assert (Hcleared : forall q, length q = 1 -> good_node q -> In ind (nth (hd 0 q) (inputs n) []) ->
+             exists k, q = [k] /\ In k (seq 0 N) /\ In ind (nth k (inputs n) [])).
+  { intros q E1 Gq Hi. exists (hd 0 q). rewrite (len1 q E1) in Gq |- *. cbn [hd]. split; [reflexivity|].
+    split; [apply in_seq; pose proof (good_leaf _ Gq); lia|rewrite (len1 q E1) in Hi; exact Hi]. }
+  assert (Hinternal : forall q, length q <> 1 -> nget q (info s4) = nget q (info s)).
+  { intros q Hl. rewrite A13; [reflexivity|]. intros (k & -> & _). apply Hl. reflexivity. }
+  destruct HS as (C1&C2&C3&C5).
+  assert (Hkeylen : forall q, In q K0 -> length q <> 1).
+  { intros q Hq. apply nget_in_keys in Hq. destruct (nget q (children s)) as [[l r]|] eqn:E; [|congruence].
+    apply (leaf_not_parent _ q l r C1 E). }
+  assert (HR0 : RInv sl sl' K0 [] s4).
+  { unfold RInv. rewrite A1, A2, A4, A5, A6. cbn [set_mult set_sliced children sliced trk_flops trk_write trk_size].
+    split; [split|].
+    - unfold InvSV. rewrite A1, A2, A3, A11. cbn [set_mult set_sliced children sliced mult info].
+      split; [exact C1|]. split; [exact C2|]. split; [|exact Em3].
+      intros nd i' Hi'.
+      assert (Hk : nget nd (info s) <> None).
+      { apply nget_in_keys. change (info s) with (info s3). unfold nkeys in *. rewrite <- A11. apply nget_in_keys. congruence. }
+      destruct (nget nd (info s)) as [i|] eqn:Ei; [|congruence]. destruct (C3 nd i Ei) as [G Hn].
+      split; [exact G|]. intros [E1|[]].
+      destruct (in_dec Nat.eq_dec ind (nth (hd 0 nd) (inputs n) [])) as [Hc|Hc].
+      + rewrite (A12 nd (Hcleared nd E1 G Hc)) in Hi'. change (info s3) with (info s) in Hi'. rewrite Ei in Hi'. injection Hi' as <-.
+        apply node_inv_noinfo.
+      + rewrite A13 in Hi'.
+        * change (info s3) with (info s) in Hi'. rewrite Ei in Hi'. injection Hi' as <-.
+          rewrite (len1 nd E1) in Hn |- *. apply (leaf_node_same_rev sl sl' ind Hrem (children s) (hd 0 nd) i C1 Hc Hn).
+        * intros (k & Eq & _ & Hk'). subst nd. exact (Hc Hk').
+    - apply totals_split. rewrite A1. cbn [set_mult set_sliced children]. apply totals_split in HT.
+      assert (Rq : forall A (fld : ninfo -> option A) q, In q K0 -> rd fld s4 q = rd fld s q).
+      { intros A fld q Hq. unfold rd. rewrite (Hinternal q (Hkeylen q Hq)). reflexivity. }
+      destruct HT as (T1 & T2 & T3). split; [|split].
+      + apply (tot_flops_frame K0 s s4); [exact A4|exact A7|intros q Hq; apply Rq, Hq|exact T1].
+      + apply (tot_write_frame K0 s s4); [exact A5|exact A8|intros q Hq; apply Rq, Hq|exact T2].
+      + apply (tot_size_frame K0 s s4); [exact A6|exact A9|exact A10|intros q Hq; apply Rq, Hq|exact T3].
+    - split.
+      { apply Vclosed_Vof_leaf. intros q l r Hq [E1|[]]. exfalso. apply (leaf_not_parent _ q l r C1 Hq E1). }
+      split; [reflexivity|]. split; [exact Tf|]. split; [exact Tw|]. split; [exact Ts|]. split; [tauto|]. split.
+      { intros q Hq. rewrite (Hinternal q (Hkeylen q Hq)). apply HKi, Hq. }
+      split; [intros q l r Hq _; apply (HU q l r Hq)|].
+      intros nd i Hi Hl _. rewrite (Hinternal nd Hl) in Hi. destruct (C3 nd i Hi) as [_ Hn]. destruct (Hfull nd i Hi Hl) as [Hk Hf].
+      split; [exact Hn|]. split; [exact Hf|exact Hk]. }
+  (* the loop *)
+  assert (NDn : NoDup (map fst nodes)) by (apply (Permutation_NoDup (Permutation_sym HPn)), C1).
+  pose proof (RInv_fold sl sl' ind Hrem Hfresh Hinc K0 nodes [] s4 HR0 NDn) as HRf.
+  change (fold_left _ nodes s4) with (fold_left (loop_body ind) nodes s4).
+  apply reset_recipes_inv.
+  destruct HRf as ([HSf HTf] & _ & Eslf & _ & _ & _ & HKf & _ & _ & Hunf).
+  - intros e He. rewrite A1. apply (traverse_entries s nodes Htr e He).
+  - intros e He. split; [intros []|]. apply (Permutation_in _ HPn), in_map, He.
+  - exact Hcf.
+  - split; [|exact HTf]. destruct HSf as (D1&D2&D3&D5). unfold InvS. split; [exact D1|]. split; [exact D2|]. split; [|exact D5].
+    intros nd i Hi. destruct (D3 nd i Hi) as [G Hv]. split; [exact G|]. apply Hv.
+    destruct (Nat.eq_dec (length nd) 1) as [E1|E1]; [left; exact E1|right].
+    rewrite app_nil_r. destruct (in_dec node_eq_dec nd (rev (map fst nodes))) as [H|H]; [exact H|exfalso].
+    destruct (Hunf nd i Hi E1) as (_ & _ & Hk); [rewrite app_nil_r; exact H|].
+    apply H, in_rev. rewrite rev_involutive. apply (Permutation_in _ (Permutation_sym HPn)), Hk.
+Qed.
 
 End Inv.
